@@ -31,9 +31,10 @@ CLAIM = dict(
           "(they access no memory); 'every operation fails' is claimed for read, write, seek, tell, flush, address."),
     technique="Lean 4 theorems over a hand-written model + differential correspondence + Lean spec as oracle")
 
-THEOREMS = ["step_confined", "run_confined", "step_refines_file", "slice_exact", "slice_within_parent",
-            "dead_after_close", "no_access_after_free", "orig_read_escapes_below", "orig_write_escapes_above",
-            "fix_conservative", "seek_end_sign"]
+THEOREMS = ["step_confined", "step_WF", "run_confined", "run_confined_alloc", "slice_exact", "slice_within_parent",
+            "step_refines_file", "read_back", "close_closes", "dead_after_close", "free_frees",
+            "no_access_after_free", "orig_read_escapes_below", "orig_write_escapes_above", "fix_conservative",
+            "seek_end_sign"]
 
 RULE = ("histories of 1-14 calls (seek with all three origins and offsets from -len-3 to len+4 biased to the edges, "
         "bad origin; read default / explicit counts incl. 0, negative and beyond the end; writes of 0-2*len bytes; "
